@@ -14,7 +14,7 @@ func (d *D) AnySexp() string {
 	switch d.K {
 	case "null":
 		return "nil"
-	case "other":
+	case "other", "other2":
 		return "x"
 	case "int":
 		return fmt.Sprintf("(i %d)", d.I)
@@ -124,6 +124,9 @@ func (x *runner) confusedLeaf() *D {
 		return &D{K: "arr", Elts: []*D{{K: "int", I: 1}, {K: "null"}}}
 	case 7:
 		return &D{K: "obj", KVs: []DKV{{"a", &D{K: "int", I: 1}}, {"n", &D{K: "null"}}}}
+	}
+	if x.rng.Intn(3) == 0 {
+		return &D{K: "other2", Go: x.rng.Intn(3)}
 	}
 	return &D{K: "other"}
 }
